@@ -43,6 +43,44 @@ static std::string join(const std::vector<long long>& v)
 //        <keyups> <frames per keyup (full 320-sample blocks fed while active)> <extra samples> <nsrc> src... <ndst> dst...
 //        [optional: per key-up pairs <frames_k> <extra_k> overriding the common values]
 // reply: <final state> <exception 0/1> | bytes...
+// access to the private address fields of M17Modulator (explicit-instantiation friend injection; no change to the class)
+template <typename Tag, typename Tag::type M> struct Rob { friend typename Tag::type get(Tag) { return M; } };
+struct SrcTag { typedef LinkSetupFrame::encoded_call_t M17Modulator::*type; friend type get(SrcTag); };
+struct DstTag { typedef LinkSetupFrame::encoded_call_t M17Modulator::*type; friend type get(DstTag); };
+template struct Rob<SrcTag, &M17Modulator::source_>;
+template struct Rob<DstTag, &M17Modulator::dest_>;
+
+// mod_addr_sweep <len> <mode 0 constructor | 1 setters on one long-lived object>: every callsign of exactly <len> characters over the M17 alphabet
+// given to the modulator as source and as destination; the stored addresses must be the base-40 addresses of the specification
+// (computed here independently).  reply: <cases> <mismatches> <index of the first mismatch>
+static std::string mod_addr_sweep(const Args& a)
+{
+    static const char ALPHA[] = " ABCDEFGHIJKLMNOPQRSTUVWXYZ0123456789-/.";
+    size_t len = size_t(a.at(0)); bool setters = a.at(1) != 0;
+    long long cases = 0, bad = 0, first = -1;
+    std::vector<size_t> idx(len, 1);
+    M17Modulator keep("A", "B");
+    while (true) {
+        std::string cs(len, ' ');
+        unsigned long long v = 0, pw = 1;
+        for (size_t i = 0; i < len; ++i) { cs[i] = ALPHA[idx[i]]; v += idx[i] * pw; pw *= 40; }
+        LinkSetupFrame::encoded_call_t want;
+        for (size_t i = 0; i < 6; ++i) want[i] = uint8_t(v >> (8 * (5 - i)));
+        LinkSetupFrame::encoded_call_t s, d;
+        if (setters) {          // a longer callsign was in force before: nothing of it may survive
+            if (cases % 3 == 0) { keep.source("ZZZZZZZZZ"); keep.dest("9/9/9/9/9"); }
+            keep.source(cs); keep.dest(cs); s = keep.*get(SrcTag()); d = keep.*get(DstTag());
+        }
+        else { M17Modulator m(cs, cs); s = m.*get(SrcTag()); d = m.*get(DstTag()); }
+        if (s != want || d != want) { if (!bad) first = cases; ++bad; }
+        ++cases;
+        size_t k = 0;
+        while (k < len && ++idx[k] == 40) { idx[k] = 1; ++k; }
+        if (k == len) break;
+    }
+    return join({cases, bad, first});
+}
+
 // modapi: like modrun (consumer eager, audio prequeued) but the callsigns are changed through the public setters between key-ups:
 // modapi <seed> <frames> <extra> <nsrc> src... <ndst> dst... <K> then K times: <kind 0 none | 1 source(x) | 2 dest(x)> <len> chars...
 struct ApiStep { int kind; std::string call; };
@@ -141,7 +179,7 @@ int main()
         if (op.empty()) continue;
         Args a; long long x;
         while (is >> x) a.push_back(x);
-        std::string r = op == "modrun" ? modrun(a) : op == "modapi" ? modapi(a) : std::string("bad-op");
+        std::string r = op == "modrun" ? modrun(a) : op == "modapi" ? modapi(a) : op == "mod_addr_sweep" ? mod_addr_sweep(a) : std::string("bad-op");
         fputs(r.c_str(), stdout); fputc('\n', stdout); fflush(stdout);
     }
     return 0;
